@@ -7,7 +7,8 @@ use crate::anchor_shim::*;
 //@ tags C04
 //@ assume authority shims: anchor_spl TokenAccount / InterfaceAccount / Signer / AccountInfo and solana COption are plain structs with the fields read by the extracted functions (owner, delegate, delegated_amount, key, is_signer)
 pub enum COption<T> { None, Some(T) }
-pub struct TokenAccount { pub owner: Pubkey, pub delegate: COption<Pubkey>, pub delegated_amount: u64, pub amount: u64, pub mint: Pubkey }
+pub struct TokenAccount { pub owner: Pubkey, pub delegate: COption<Pubkey>, pub delegated_amount: u64, pub amount: u64, pub mint: Pubkey, pub frozen: bool }
+impl TokenAccount { pub fn is_frozen(&self) -> (r: bool) ensures r == self.frozen { self.frozen } }
 pub type TokenAccountInterface = TokenAccount;
 pub struct AccountInfo<'a> { pub key: &'a Pubkey, pub is_signer: bool, pub is_writable: bool }
 pub struct Signer<'a> { pub info: AccountInfo<'a> }
@@ -43,6 +44,10 @@ pub open spec fn copt(c: COption<Pubkey>) -> Option<Pubkey> { match c { COption:
         !position_authority.info.is_signer ==> r is Err,
         (*position_authority.info.key != position_token_account.owner && copt(position_token_account.delegate) != Some(*position_authority.info.key)) ==> r is Err,
         (copt(position_token_account.delegate) == Some(*position_authority.info.key) && position_token_account.delegated_amount != 1) ==> r is Err,
+//@ end
+
+//@ fn util/shared.rs is_locked_position -> r tags=C18
+    ensures r == position_token_account.data.frozen,
 //@ end
 
 //@ fn util/shared.rs verify_position_bundle_authority -> r
